@@ -385,7 +385,7 @@ func (g *fgen) applyContract(fc *funcContract, callee *ssa.Function, recv *val, 
 			}
 			panic(transErr(err.Error()))
 		}
-		if g.noteQuant(post, c, g.curGuard, true) > 0 && g.multiVarForall(c) {
+		if g.noteQuant(post, c, g.curGuard, !fc.indexInst) > 0 && g.multiVarForall(c) {
 			// the contract of the function under verification names witnesses and the
 			// clause has been instantiated at them: the multi-variable quantified form
 			// itself is not asserted (it only feeds matching loops)
